@@ -91,9 +91,8 @@ def check(ctx: Ctx) -> None:
         if waits[1].id not in cfg.reach(fail_succ(waits[0])):
             ob.violation(f_term, waits[0].ast, "a failed first wait does not lead to the second escalation step")
         exits = cfg_nodes_with_call(cfg, lambda c: unparse(c.func) == "os._exit")
-        ob.require(len(exits) == 1, "os._exit not found in the ladder")
-        p = cfg.must_pass(fail_succ(waits[1]), [cfg.exit.id, cfg.raise_exit.id], {exits[0].id})
-        ob.site(f_term, exits[0].ast, "second wait failed -> os._exit")
+        p = cfg.must_pass(fail_succ(waits[1]), [cfg.exit.id, cfg.raise_exit.id], {e.id for e in exits})
+        ob.site(f_term, exits[0].ast if exits else waits[1].ast, "second wait failed -> os._exit", found=bool(exits))
         if p is not None:
             ob.violation(f_term, waits[1].ast, "after the second failed wait the process is not force-exited: a worker swallowing KeyboardInterrupt lives forever", path=cfg.describe_path(p))
         # the waits are on the execution pool
